@@ -45,11 +45,20 @@ def main(d):
             import pool
             b = pool.build_pool_harness(scratch)
             scripts = [json.loads(l) for l in script.split("\n") if l.strip()]
-            if scripts and scripts[0].get("random_job"):
+            is_conc = bool(scripts) and any(st.get("op") == "conc" for st in scripts[0].get("steps", []))
+            if is_conc:
+                import conc
+                b = pool.build_pool_harness(scratch, gates=True)
+                _, out = pool.run_scripts(scratch, b, scripts, "replay")
+                bad, verdict, js = conc.judge(scratch, conc.sections(out), "replay")
+                verdict = dict(verdict, bad=bad)
+                print("concurrent section: %d orders validated, %s" % (js["linearizations"], "unexplained" if bad else "explained"))
+            elif scripts and scripts[0].get("random_job"):
                 _, out = pool.run_random(scratch, b, [x["random_job"] for x in scripts], "replay")
             else:
                 _, out = pool.run_scripts(scratch, b, scripts, "replay")
-            verdict = pool.validate_trace(scratch, out, "replay", par=1)
+            if not is_conc:
+                verdict = pool.validate_trace(scratch, out, "replay", par=1)
         for l in open(out):
             e = json.loads(l)
             print({k: v for k, v in e.items() if v not in ("", 0, [], False, None) and k not in ("cfg", "wb", "sid")})
